@@ -60,6 +60,31 @@ pub fn cleanup_tmp() {
 	}
 }
 
+/// Every MBTiles reader of the code under test owns an r2d2 connection pool whose helper
+/// threads linger for up to 30 s after the reader is dropped. Checks that open thousands of
+/// MBTiles files per second would exhaust the process's memory mappings (thread stacks) and
+/// abort; this waits until the number of live threads has dropped again.
+pub fn throttle_threads() {
+	static COUNTER: AtomicU64 = AtomicU64::new(0);
+	if COUNTER.fetch_add(1, Ordering::Relaxed) % 16 != 0 {
+		return;
+	}
+	let threads = || -> u64 {
+		std::fs::read_to_string("/proc/self/status")
+			.ok()
+			.and_then(|s| s.lines().find_map(|l| l.strip_prefix("Threads:").and_then(|v| v.trim().parse().ok())))
+			.unwrap_or(0)
+	};
+	if threads() > 4000 {
+		for _ in 0..600 {
+			std::thread::sleep(std::time::Duration::from_millis(100));
+			if threads() < 2500 {
+				break;
+			}
+		}
+	}
+}
+
 thread_local! {
 	static RT: RefCell<Option<tokio::runtime::Runtime>> = const { RefCell::new(None) };
 }
